@@ -132,4 +132,12 @@ TEXTS = {
                     "edited objects must answer as rebuilt ones. Counter-example search with shrinking of the whole history."),
         level_note=("Trusted: fork() isolation, the result serialisation of the harness, rapidcheck. Thread interleavings are not explored (the library starts no threads); "
                     "only the inventoried kinds of noise calls are generated.")),
+    "C13": dict(
+        engine="rapidcheck",
+        technique="property-based testing (rapidcheck): run-twice bit equality, seed/rank sensitivity, exactness at coinciding data, bound-membership and facies-consistency predicates on generated small simulations",
+        design_ref="DESIGN.md §5 C13",
+        level_text=("Exploration: ~12 000 (quick) to 360 000 (thorough) generated simulations over 8 simulator families; each is run twice (bit equality), with "
+                    "other seeds (difference), and its conditioning (data, interval bounds, facies) is checked against an oracle recomputed in the harness."),
+        level_note=("Trusted: the harness's threshold computation for lithotype rules, rapidcheck. The fresh-process half of reproducibility is exercised by the "
+                    "replay tier and by C10; SPDE conditional simulation is not required to be exact at data.")),
 }
